@@ -29,7 +29,7 @@ theorem sampleHeader_ranges : sampleHeader.Ranges := by
   constructor <;> first | decide | (unfold DimOK; decide)
 
 theorem sampleHeader_WF : sampleHeader.WF :=
-  ⟨sampleHeader_ranges, ⟨by decide, by decide⟩, ⟨by decide, by decide⟩, ⟨by decide, by decide⟩⟩
+  ⟨sampleHeader_ranges, by unfold StrOK; decide, by unfold StrOK; decide, by unfold StrOK; decide⟩
 
 /-- a header whose kernel name contains `=` (a demangled name with a default template argument) -/
 def eqHeader : KernelFileHeader := { sampleHeader with kernelName := "k<a=1>".toList }
@@ -44,7 +44,8 @@ def blankHeader : KernelFileHeader := { sampleHeader with kernelName := " padded
 
 /-- **Header round trip (full strength for the values the format can carry).**  For every header whose
     numeric fields are in the ranges of their Go types (`int32`; the two base addresses non-negative
-    `int64`, printed `0x%016x`) and whose three strings contain no `=` and no white space at either end,
+    `int64`, printed `0x%016x`) and whose three strings have no white space at either end (they may contain `=`:
+    the repaired reader splits a line at its first `=` only),
     `readTraceHeader` applied to the rendered block followed by `rest` (nothing, or lines starting with a
     non-empty line that does not begin with `-`) returns exactly the header — whatever the header
     structure held before — and leaves exactly `rest` to the thread-block parser. -/
@@ -60,37 +61,61 @@ example : sampleHeader.WF ∧ RestHdr (renderBody opText []) ∧
     (renderHeader sampleHeader)[8]? = some "-shmem base_addr = 0x00007fb139000000".toList :=
   ⟨sampleHeader_WF, renderBody_restHdr _ _, by decide +kernel, by decide +kernel⟩
 
-/-- the statement without the conditions on the strings: every header with in-range numbers comes back -/
+/-- the kernel name `k<a=1>` (finding `C20-header-value-cut-at-equals`, repaired) is a value the format carries: the
+    header is well-formed and comes back -/
+theorem eqHeader_WF : eqHeader.WF :=
+  ⟨eqHeader_ranges, by unfold StrOK; decide, by unfold StrOK; decide, by unfold StrOK; decide⟩
+
+theorem header_value_with_equals_kept (h0 : KernelFileHeader) :
+    readHeader h0 (renderHeader eqHeader) = .ok (eqHeader, []) := by
+  have := header_parse_render h0 eqHeader eqHeader_WF [] (Or.inl rfl)
+  simpa using this
+
+/-- before the repair the reader cut that value at its first `=`: the rendered line `-kernel name = k<a=1>` reached
+    `updateTraceHeaderParam` with the value `k<a` -/
+theorem header_value_cut_before_fix (h : KernelFileHeader) :
+    headerLineOld h (renderKV "kernel name" "k<a=1>".toList) = .ok { h with kernelName := "k<a".toList } ∧
+    headerLine h (renderKV "kernel name" "k<a=1>".toList) = .ok { h with kernelName := "k<a=1>".toList } := by
+  constructor
+  · rw [headerLineOld_renderKV h "kernel name" _ (by decide) (by decide)]
+    rfl
+  · rw [headerLine_renderKV h "kernel name" _ (by decide) (by decide)]
+    rfl
+
+/-- the statement without the condition on the strings: every header with in-range numbers comes back -/
 def header_parse_render_full : Prop :=
   ∀ (h0 h : KernelFileHeader) (rest : List (List Char)), h.Ranges → RestHdr rest →
     readHeader h0 (renderHeader h ++ rest) = .ok (h, rest)
 
 /-- **Strongest statement that holds without conditions on the strings**: the numbers always come back;
-    of each string the reader keeps the part before its first `=`, trimmed (`strings.Split(text, "=")[1]`,
-    `strings.TrimSpace`). -/
+    each string comes back trimmed (`strings.TrimSpace`). -/
 theorem header_parse_render_partial (h0 h : KernelFileHeader) (rg : h.Ranges) (rest : List (List Char))
     (hr : RestHdr rest) : readHeader h0 (renderHeader h ++ rest) = .ok (h.kept, rest) :=
   readHeader_render_kept h0 h rg rest hr
 
-example : eqHeader.Ranges ∧ eqHeader.kept ≠ eqHeader :=
-  ⟨eqHeader_ranges, by decide⟩
+theorem blankHeader_ranges : blankHeader.Ranges := by
+  constructor <;> first | decide | (unfold DimOK; decide)
 
-/-- **The full statement is false of the code** (finding `C20-header-value-cut-at-equals`, replayed on the
-    real `ReadTrace` by the harness): the kernel name `k<a=1>` is read back as `k<a`. -/
+example : blankHeader.Ranges ∧ blankHeader.kept ≠ blankHeader ∧ eqHeader.kept = eqHeader :=
+  ⟨blankHeader_ranges, by decide, by decide⟩
+
+/-- **The full statement is false — of the FORMAT, not of the reader**: a `-key = value` line cannot carry blanks at
+    the ends of a value (the writer puts one blank behind the `=`, the reader trims): the kernel name
+    ` padded name ` is read back as `padded name`. (The other witness this refutation used to have — a value with
+    `=` — was a defect of the reader and is repaired: `header_value_with_equals_kept`.) -/
 theorem header_parse_render_full_refuted : ¬ header_parse_render_full := by
   intro hfull
-  have h1 := hfull {} eqHeader [] eqHeader_ranges (Or.inl rfl)
-  rw [header_parse_render_partial {} eqHeader eqHeader_ranges [] (Or.inl rfl)] at h1
-  have h2 : eqHeader.kept = eqHeader := by
+  have h1 := hfull {} blankHeader [] blankHeader_ranges (Or.inl rfl)
+  rw [header_parse_render_partial {} blankHeader blankHeader_ranges [] (Or.inl rfl)] at h1
+  have h2 : blankHeader.kept = blankHeader := by
     injection h1 with h1
     exact (Prod.mk.inj h1).1
   exact absurd h2 (by decide)
 
 /-- what the reader makes of the two witnesses (evaluated by the kernel on the model the harness ties to
-    the code): the name is cut at `=`, respectively trimmed — the format `-key = value` cannot carry
-    blanks at the ends of a value -/
+    the code): the name with `=` comes back whole, the padded one trimmed -/
 theorem header_witnesses_read :
-    (readHeader {} (renderHeader eqHeader)).toOption = some ({ eqHeader with kernelName := "k<a".toList }, []) ∧
+    (readHeader {} (renderHeader eqHeader)).toOption = some (eqHeader, []) ∧
     (readHeader {} (renderHeader blankHeader)).toOption =
       some ({ blankHeader with kernelName := "padded name".toList }, []) := by
   constructor <;> decide +kernel
@@ -146,7 +171,8 @@ theorem sampleList_WF : ∀ e ∈ sampleList, e.WF := by
   · exact ⟨Or.inr rfl, by decide, by decide⟩
 
 /-- **`kernelslist.g` round trip.**  For every list of entries — kernel entries whose file name starts with
-    `kernel`, memcpy entries with direction `MemcpyHtoD` or `MemcpyDtoH` and `uint64` address and length —
+    `kernel`, memcpy entries with direction `MemcpyHtoD` or `MemcpyDtoH` and `uint64` address and length
+    (`klist_parse_render_full_holds` drops the condition on the direction) —
     `generateExcutions` applied to the rendered lines (`MemcpyHtoD,0x%016x,%d` / the file name) returns
     exactly the entries, in order. -/
 theorem klist_parse_render (es : List Exec) (hwf : ∀ e ∈ es, e.WF) :
@@ -166,12 +192,14 @@ example : (∀ e ∈ sampleList, e.WF) ∧
 def klist_parse_render_full : Prop :=
   ∀ es : List Exec, (∀ e ∈ es, e.Ranges) → readKernelsList (renderKernelsList es) = .ok es
 
-/-- **Strongest statement that holds for every accepted direction text**: addresses, lengths, file names
-    and the order come back; the direction only if it is `MemcpyHtoD` / `MemcpyDtoH`, otherwise it is
-    replaced by the empty string. -/
-theorem klist_parse_render_partial (es : List Exec) (h : ∀ e ∈ es, e.Ranges) :
-    readKernelsList (renderKernelsList es) = .ok (es.map Exec.kept) :=
-  readKernelsList_render es h
+/-- **It holds since the repair** (finding `C20-memcpy-direction-dropped`): addresses, lengths, file names, the order
+    AND the direction of every accepted memcpy line come back, whatever the direction text is. -/
+theorem klist_parse_render_full_holds : klist_parse_render_full := by
+  intro es h
+  have hk : es.map Exec.kept = es := by
+    have : es.map Exec.kept = es.map id := List.map_congr_left (fun e _ => by cases e <;> rfl)
+    rw [this, List.map_id]
+  rw [readKernelsList_render es h, hk]
 
 /-- a device-to-device copy -/
 def d2dList : List Exec := [.memcpy "MemcpyDtoD".toList 0x1000 64]
@@ -183,19 +211,16 @@ theorem d2dList_ranges : ∀ e ∈ d2dList, e.Ranges := by
   exact ⟨by decide, by decide, by decide, by decide⟩
 
 example : renderKernelsList d2dList = ["MemcpyDtoD,0x0000000000001000,64".toList] ∧
-    (readKernelsList (renderKernelsList d2dList)).toOption = some [.memcpy [] 4096 64] := by
+    (readKernelsList (renderKernelsList d2dList)).toOption = some d2dList := by
   constructor <;> decide +kernel
 
-/-- **The full statement is false of the code** (finding `C20-memcpy-direction-dropped`, replayed on the
-    real `TraceReaderBuilder.Build` by the harness): `MemcpyDtoD,0x0000000000001000,64` is accepted and
-    comes back with `Direction = ""`. -/
-theorem klist_parse_render_full_refuted : ¬ klist_parse_render_full := by
-  intro hfull
-  have h1 := hfull d2dList d2dList_ranges
-  rw [klist_parse_render_partial d2dList d2dList_ranges] at h1
-  have h2 : d2dList.map Exec.kept = d2dList := by
-    injection h1
-  exact absurd h2 (by decide)
+/-- **before the repair** `BuildExecFromText` (`buildExecOld`) accepted `MemcpyDtoD,0x0000000000001000,64` and returned
+    it with `Direction = ""` (it copied the direction for `MemcpyHtoD` / `MemcpyDtoH` only); the repaired one keeps it -/
+theorem klist_direction_dropped_before_fix :
+    (buildExecOld "MemcpyDtoD,0x0000000000001000,64".toList).toOption = some (.memcpy [] 4096 64) ∧
+    (buildExec "MemcpyDtoD,0x0000000000001000,64".toList).toOption = some (.memcpy "MemcpyDtoD".toList 4096 64) ∧
+    (buildExecOld "MemcpyHtoD,0x0000000000001000,64".toList).toOption = some (.memcpy h2d 4096 64) := by
+  refine ⟨by decide +kernel, by decide +kernel, by decide +kernel⟩
 
 /-! ## benchmark builder -/
 
